@@ -184,7 +184,16 @@ def run(prop, src, scratch, env, logs, tier="quick"):
                    mir_dump_s=round(dump_s, 1))
         try:
             # quick: masks <= 3 bits (z3 4.8.12, ~12 s); thorough: <= 4 bits (16 subsets; z3 5.1 needs ~10 min)
-            r = mirloop.check(mir, src, k=4, solver="z3-new") if tier == "thorough" else mirloop.check(mir, src, k=3)
+            r = None
+            if tier == "thorough":
+                try:
+                    r = mirloop.check(mir, src, k=4, solver="z3-new")
+                except mirfmt.Unsupported as e:
+                    if "timeout" not in str(e):
+                        raise
+                    rec["note"] = "the 4-bit bound did not finish within the solver budget on this run; the 3-bit bound is what is reported"
+            if r is None:
+                r = mirloop.check(mir, src, k=3, solver="/usr/bin/z3")
         except Exception as e:  # noqa
             rec.update(verdict="unsupported", outcome="inconclusive: " + str(e)[:300])
             return [rec], [], [(rec["harness"], str(e)[:300])]
